@@ -4,6 +4,7 @@ import json
 from ..rt import check
 
 STREAMS = ["execute", "execute-blocking"]
+REGENERATE_SRC = True
 RULE = ("sequences of 1..8 execute calls: flavour x calling context (outside thread, thread payload, coroutine payload "
         "of another flavour) x outcome (None, falsy and truthy objects compared with `is`, Exception subclasses compared "
         "with `is`) x argument lists (payloads may be decorated callables whose wrapper takes other arguments than functools.wraps advertises), interleaved with adopted bystanders and a heartbeat payload; afterwards the "
